@@ -32,9 +32,13 @@ func zzWordsBit(w []uint64, q uint) bool {
 	return res
 }
 
+// zzLong: an arbitrary LongBitmask of 0..max words. The backing array may have
+// spare capacity holding arbitrary old words (And truncates by reslicing), so
+// that is part of an arbitrary valid state.
 func zzLong(name string, max int) (LongBitmask, []uint64) {
 	n := zz.Choice(name+".n", max+1)
-	w := zzWords(name, n)
+	spare := zz.Choice(name+".spare", 2)
+	w := zzWords(name, n+spare)[:n]
 	cp := append([]uint64(nil), w...)
 	return WrapAsLongBitmask(w), cp
 }
@@ -182,6 +186,14 @@ func ZZ_C17_Long_Binary() {
 	}
 	zz.Assert(zz.Iff(b.IsSet(q), bq), "long.operand-unchanged")
 	zz.Assert(zz.Iff(r.IsSet(q), zzBinModel(op, aq, bq)), "long."+zzOpNames[op])
+	// the result is independent of the operands: changing it changes neither
+	t := uint(zz.U64("t"))
+	zz.Assume(t < uint(64*(mw+1)))
+	r.Flip(t)
+	zz.Assert(zz.Iff(b.IsSet(q), bq), "long.result-independent-of-operand")
+	if cp == 1 {
+		zz.Assert(zz.Iff(a.IsSet(q), aq), "long.result-independent-of-receiver")
+	}
 }
 
 func ZZ_C17_Long_Observers() {
@@ -250,7 +262,7 @@ func ZZ_C17_Long_OnesCount() {
 
 func ZZ_C17_OnesCount_Bit() {
 	x := zz.U64("w")
-	p := []uint{0, 1, 31, 32, 62, 63}[zz.Choice("p", 6)]
+	p := []uint{0, 63}[zz.Choice("p", 2)]
 	a := WrapAsLongBitmask([]uint64{x})
 	s := MakeShortBitmask(x)
 	was := a.IsSet(p)
@@ -370,6 +382,13 @@ func ZZ_C17_Short_Binary() {
 	}
 	zz.Assert(zz.Iff(b.IsSet(q), bq), "short.operand-unchanged")
 	zz.Assert(zz.Iff(r.IsSet(q), zzBinModel(op, aq, bq)), "short."+zzOpNames[op])
+	t := uint(zz.U64("t"))
+	zz.Assume(t < uint(64*(mw+1)))
+	r.Flip(t)
+	zz.Assert(zz.Iff(b.IsSet(q), bq), "short.result-independent-of-operand")
+	if cp == 1 {
+		zz.Assert(zz.Iff(a.IsSet(q), aq), "short.result-independent-of-receiver")
+	}
 }
 
 func ZZ_C17_Short_Observers() {
@@ -503,7 +522,7 @@ func ZZ_C17_Conn_Point() {
 func zzConnBinary(op int) {
 	mr := zz.Param("runs", 2)
 	a := zzConn("a", mr)
-	b := zzConn("b", mr)
+	b := zzConn("b", zz.Param("runsb", mr))
 	q := uint(zz.U64("q"))
 	aq, bq := zzConnBit(a, q), zzConnBit(b, q)
 	cp := zz.Choice("copy", 2)
@@ -536,6 +555,15 @@ func zzConnBinary(op int) {
 	zz.Assert(zz.Iff(zzConnBit(b, q), bq), "conn.operand-unchanged")
 	zz.Assert(zz.Iff(zzConnBit(r, q), zzBinModel(op, aq, bq)), "conn."+zzOpNames[op])
 	zz.Assert(zzConnValid(r), "conn."+zzOpNames[op]+".invariant")
+	// the result is independent of the operands: changing it changes neither
+	// (an in-place edit of the first run: visible through any shared storage)
+	if len(r.entries) > 0 {
+		r.Unset(r.entries[0].min)
+	}
+	zz.Assert(zz.Iff(zzConnBit(b, q), bq), "conn.result-independent-of-operand")
+	if cp == 1 {
+		zz.Assert(zz.Iff(zzConnBit(a, q), aq), "conn.result-independent-of-receiver")
+	}
 }
 
 func ZZ_C17_Conn_Or()  { zzConnBinary(0) }
